@@ -240,7 +240,7 @@ PROPS["C09"] = dict(
           "delivered; receiver-concurrent: 3 clients issuing Direct/UncacheCid around the eviction boundary, history checked with porcupine "
           "against the same model; pubsub: three libp2p hosts on one gossip topic (publisher, relay with resend, receiver). "
           "distinct_nontrivial = sampled distinct exhaustive sequences + history configurations."),
-    floors={"quick": {"evictions": 2000, "refresh_on_hit": 2000, "uncache_then_delivered": 100, "rejected_then_delivered": 100, "concurrent_histories": 20, "pubsub_runs_completed": 2, "seqs_with_eviction_and_hit": 100000}},
+    floors={"quick": {"evictions": 800, "refresh_on_hit": 2000, "uncache_then_delivered": 100, "rejected_then_delivered": 100, "concurrent_histories": 20, "pubsub_runs_completed": 2, "seqs_with_eviction_and_hit": 100000}},
     watchdog_s={"quick": 900, "thorough": 7200},
     level_text=("Exploration (the small-capacity LRU part is exhaustive up to the stated length): delivery decisions of the real receiver are "
                 "compared call by call with a reference model of 'allowed and not among the 64 most recently seen, un-removed CIDs'; "
@@ -262,7 +262,7 @@ PROPS["C16"] = dict(
           "scripts racing Close with the other calls, then calls after the Close completed must return the closed error; pubsub-shutdown: "
           "receiver on a real libp2p host + gossip topic, 1..3 concurrent closers, watcher goroutine must be gone. distinct_nontrivial = "
           "distinct sequences / script sets."),
-    floors={"quick": {"sequences_with_repeated_close": 50, "concurrent_runs": 250, "pubsub_shutdowns": 5}},
+    floors={"quick": {"sequences_with_repeated_close": 50, "concurrent_runs": 250, "pubsub_shutdowns": 4, "gossip_announcements_handled_before_close": 8}},
     watchdog_s={"quick": 900, "thorough": 7200},
     gomaxprocs=4,
     level_text=("Exploration (sequential part exhaustive to the stated length): every call is observed to return; hangs are decided "
